@@ -182,6 +182,12 @@ def sweep_cases(rng):
                 cases.append(dict(op=op, a=a, b=b, tag='pair'))
         for num in (('N', rng.uniform(0.5, 4)), ('N', rng.randint(1, 4)), ('N', -2.0), ('N', 0)):
             cases.append(dict(op='QRMul', a=num, b=valid_q(rng, ka), tag='pair'))
+        # the number on the LEFT of the other operators and of the comparisons (reflected dispatch)
+        for op in ('QAdd', 'QSub', 'QDiv'):
+            for num in (('N', rng.uniform(0.5, 4)), ('N', rng.randint(0, 4))):
+                cases.append(dict(op=op, a=num, b=valid_q(rng, ka), tag='pair'))
+        for m in CMPS:
+            cases.append(dict(op='QCmp', m=m, a=('N', rng.choice([0, 1, 2.5, -1.0])), b=valid_q(rng, ka), tag='foreign'))
         cases.append(dict(op='QAdd', a=valid_q(rng, ka), b=('S',), tag='foreign'))
         cases.append(dict(op='QMul', a=valid_q(rng, ka), b=('S',), tag='foreign'))
         cases.append(dict(op='QDiv', a=valid_q(rng, ka), b=('S',), tag='foreign'))
